@@ -409,6 +409,7 @@ impl Formatter {
         }
         self.writer.write("def ");
         self.writer.write(&func.name);
+        self.format_type_params(&func.type_params);
         self.writer.write("(");
         self.format_params(&func.params);
         self.writer.write(") -> ");
@@ -531,6 +532,9 @@ impl Formatter {
     }
 
     fn format_param(&mut self, param: &Param) {
+        if param.is_mut {
+            self.writer.write("mut ");
+        }
         self.writer.write(&param.name);
         self.writer.write(": ");
         self.format_type(&param.ty.node);
